@@ -152,17 +152,19 @@ def gen_cases(rng, n):
     return [gen_case(rng, malformed=(i % 4 == 3)) for i in range(n)]
 
 
-def exhaustive_cases(depth=4):
-    """every sequence up to `depth` over a reduced alphabet: one layer, two connections onto one neuron group,
-    two trainers"""
+def exhaustive_cases():
+    """every sequence up to depth 3 over an 11-operation alphabet (both trainer pairings) and up to depth 4 over a
+    7-operation alphabet (eligibility-trace trainer next to a plain one): one layer, two connections onto one
+    neuron group, two trainers; a final layer call closes every sequence"""
     world = [[[[1, False], [1, False]], 1]]
     alpha = [["reg", 0, 0, [0, 0, 0], 0], ["reg", 0, 1, [0, 1, 0], 0], ["reg", 1, 0, [0, 0, 0], 0], ["delcell", 0, 0],
-             ["tmode", 0, False], ["tmode", 0, True], ["lmode", 0, False], ["lstep", 0], ["delmon", 0, 1, 2],
+             ["tmode", 0, False], ["tmode", 0, True], ["lstep", 0], ["lmode", 0, False], ["delmon", 0, 1, 2],
              ["clear", 0], ["drop", 1]]
     cases = []
-    for types in ([["STDP", False], ["STDP", False]], [["MSTDPET"], ["STDP", False]]):
-        for d in range(1, depth + 1):
-            for seq in itertools.product(range(len(alpha)), repeat=d):
+    for types, n_alpha, depth in (([["STDP", False], ["STDP", False]], 11, 3), ([["MSTDPET"], ["STDP", False]], 11, 3),
+                                  ([["MSTDPET"], ["STDP", False]], 7, 4)):
+        for d in range(1 if depth == 3 else 4, depth + 1):
+            for seq in itertools.product(range(n_alpha), repeat=d):
                 ops = [copy.deepcopy(alpha[i]) for i in seq] + [["lstep", 0]]
                 cases.append({"world": world, "trainers": types, "ops": ops})
     return cases
@@ -486,11 +488,11 @@ def load_corpus():
 
 def run(ctx):
     rng = random.Random(ctx["seed"])
-    n = 300 if ctx["tier"] == "quick" else 4000
+    n = 300 if ctx["tier"] == "quick" else 3000
     cases = load_corpus() + witness_cases() + gen_cases(rng, n)
     exhaustive = False
     if ctx["tier"] == "thorough":
-        cases += exhaustive_cases(4)
+        cases += exhaustive_cases()
         exhaustive = True
     impl = run_impl_parallel(cases)
     model = F.eval_terms(ID, HEADER, [q_case(c) for c in cases], shard=max(20, len(cases) // 16 + 1))
@@ -523,7 +525,8 @@ def run(ctx):
                 "11 shipped configurations; 1-2 Biclique layers with 1-2 connections x 1-2 neuron groups, so cells share "
                 "neurons and connections; every 4th case from a malformed stream); non-trivial = registers, steps and "
                 ">=3 op kinds; distinct by full case text"
-                + ("; plus every sequence of depth<=4 over an 11-op alphabet for two trainer pairings" if exhaustive else ""),
+                + ("; plus every sequence of depth<=3 over an 11-op alphabet for two trainer pairings and of depth 4 over a "
+                   "7-op alphabet for MSTDPET next to STDP" if exhaustive else ""),
         "op_distribution": dict(dist), "error_distribution": dict(errs),
         "trainer_type_distribution": dict(Counter(t[0] for c in cases for t in c["trainers"])),
         "oracle_failure_kinds": dict(kinds),
